@@ -22,6 +22,12 @@ def storedOf (env : Env) (v : String) : Option (List Char) :=
   if v.startsWith "S:" then some (Fs.Gen.sfLit body)
   else if v.startsWith "N:" then some body
   else if v.startsWith "P:" then some ('(' :: body ++ [')'])
+  else if v.startsWith "X:" then
+    -- a compound expression that references variables (`SET total = $total + 5`): the statement is inlined first,
+    -- sqlglot re-renders the expression unchanged and the repaired SET parenthesises it
+    match Impl.inline env body with
+    | .ok t => some ('(' :: t ++ [')'])
+    | .undefined _ => none
   else if v.startsWith "R:" then env.get body
   else none
 
